@@ -61,6 +61,7 @@ impl Prop for C18 {
             reopen: 0,
             rebuild: 0,
             extra: 1,
+            pressure: 0,
         };
         let cfg = EvCfg {
             kind_weights: [4, 2, 2, 3, 2],
@@ -121,14 +122,13 @@ impl Prop for C18 {
                                 let _ = named.insert(t[1].to_lowercase());
                             }
                             if t.len() >= 2 && t[0] == "a" {
-                                if let Ok(a) = pocket_types::Addr::try_from_bytes(t[1].as_bytes()) {
-                                    let _ = named_addr.insert((a.kind.as_u16(), crate::model::hex(a.author.as_slice()), String::from_utf8_lossy(&a.d).to_string()));
+                                if let Some(a) = crate::model::parse_addr(&t[1]) {
+                                    let _ = named_addr.insert(a);
                                 }
                             }
                         }
                     }
-                    let k = Kind::from_u16(e.kind);
-                    if k.is_ephemeral() {
+                    if crate::model::kind_is_ephemeral(e.kind) {
                         out.label("ephemeral-store");
                         if !matches!(step.res, Res::Ok(_)) {
                             // an ephemeral event may be refused only as deleted (its id was named by a deletion request)
